@@ -7,7 +7,9 @@
      N dialect                         Linter::new                                                              -> ok
      L lang | text | effcfg | alts     lint; alts = raw lints (with context hashes) per candidate user dictionary
                                                                        -> OK <TAB> json <TAB> json ...   |  P
-     A text | wlint | sug              apply_suggestion                 -> T cps | P
+     A text | wlint | sug | line       apply_suggestion; line = the bytes of the record the real linter pushed (its
+                                       clock, uuid and fat tokens answer the model's env / fat_context; the model
+                                       reads it with C19Record's reader) or `-`   -> T cps | P
      I text | wlint | ctxalts          ignore_lint                      -> ok
      XI                                export_ignored_lints             -> sorted hashes
      MI json-cps                       import_ignored_lints             -> ok | err
@@ -16,7 +18,7 @@
      XW                                export_words                     -> words (cps), sorted, ';'-separated
      SC cfgstring | SC !               set_lint_config_from_json        -> ok | err
      GC                                get_lint_config_as_json          -> cfgstring
-     S                                 statistics                       -> n kind...
+     S                                 generate_stats_file              -> F <the file, LF shown as TAB>  (byte for byte)
      D                                 get_dialect                      -> d
      JL wlint / JS a b / JG sug / JH hashes(decimal)      to_json       -> the JSON text (UTF-8)
      PL cps / PS cps / PG cps / PH cps                    from_json then to_json -> JSON text | none
@@ -27,7 +29,10 @@
      LE text | alts  /  IE text | alts  is_likely_english / isolate_english: per candidate dictionary the answer of
                                        harper_core; the model says which dictionary the linter uses  -> b 0|1  /  T cps
      DCFG                              get_default_lint_config_as_json -> cfgstring
-     IS kind ... | IS !                import_stats_file of a file with these records / a broken file -> ok | err
+     IS bytes                          import_stats_file of this file (Model/C16Stats.v: C19Record's reader per line) -> ok | err
+     SUM a b                           summarize_stats(a, b) ('-' = None) -> total | kind:count ... | word:count ... | n config entries
+     KD n {id code}*                   the rule descriptions (key id, code of the text)                         -> ok
+     LD                                get_lint_descriptions_as_json    -> id:code ...
    A model-side lookup that the case line cannot answer (dictionary or config the harness did not
    offer) prints MODEL-FAIL, which shows up as a disagreement. *)
 module SS = Stdlib.String
@@ -212,8 +217,8 @@ let handle_dc (f : int -> SS.t) : SS.t =
                   (run_ctx_classes pre_tokens word_meta t lang items) in
   SS.concat " ; " dumps ^ " # " ^ SS.concat " " classes
 
-let st : state ref = ref (new0 [] O)
-(* what the case line offers to the Section variables of Model/C16Api.v *)
+let cst : (state * drv_record list) ref = ref (new0 [] O, [])
+(* what the case line offers to the Section variables of Model/C16Api.v / Model/C16Stats.v *)
 let tt_answer : (n list * n list) option ref = ref None
 let english_alts : (n list list * n list) list ref = ref []     (* dictionary -> answer (a bool as [0]/[1]) *)
 let title_case (t : n list) : n list =
@@ -225,18 +230,22 @@ let english_answer (t : n list) (d : (n * n list) list) : n list =
   | None -> failwith "english: the model's lint dictionary is none of the dictionaries offered"
 let likely_english t d = (match english_answer t d with [c] -> int_of_n c = 1 | _ -> failwith "likely_english: not a bool")
 let isolate t d = english_answer t d
-(* a statistics record on the wire of the driver: one byte, its kind (the harness reads the kinds off the real file) *)
-let ser (r : stat_record) : n list = [n_of_int (kind_index r.sr_kind)]
-let de (b : n list) : stat_record option =
-  match b with
-  | [c] when int_of_n c < 10 ->
-      Some { sr_kind = kinds.(int_of_n c); sr_span = { sstart = O; send = O }; sr_text = []; sr_lang = Plain; sr_dict = [] }
-  | _ -> None
+let descriptions : (n * n list) list ref = ref []
+(* the record the real apply_suggestion pushed, read by the model's own reader: its fat tokens, clock and uuid are
+   what the model cannot know; the KIND is the model's (from the lint of the call) *)
+let cur_record : drv_record option ref = ref None
+let fat_context _ _ _ _ = match !cur_record with Some (RKLint (_, cx), _) -> cx | _ -> []
+let z_of_int (i : int) : z = if i = 0 then Z0 else if i > 0 then Zpos (pos_of_int i) else Zneg (pos_of_int (- i))
+let do_ystep (c : ycall) : yout =
+  let env = match !cur_record with Some (_, e) -> e | None -> (Z0, []) in
+  let (cst', o) = drv_cstep !curated word_id raw_lints ctx title_case likely_english isolate !descriptions fat_context env !cst c in
+  cst := cst'; o
 let do_xstep (c : xcall) : xout =
-  let (st', o) = xstep !curated word_id raw_lints ctx title_case likely_english isolate ser de !st c in
-  st := st'; o
+  match do_ystep (YX c) with YOut o -> o | YFileOut f -> XFile f | _ -> failwith "cstep (YX _) answered with a summary"
 let do_step (c : call) : out =
   match do_xstep (XBase c) with XOut o -> o | _ -> failwith "xstep (XBase _) did not answer with XOut"
+let string_of_bytes (b : n list) : SS.t =
+  SS.init (SL.length b) (let a = Stdlib.Array.of_list b in fun i -> Stdlib.Char.chr ((int_of_n a.(i)) land 255))
 let read_english_alts cur (is_bool : bool) =
   let n = take cur in
   times n (fun () ->
@@ -254,7 +263,30 @@ let handle (l : SS.t) : SS.t =
   let f i = SL.nth fs i in
   match cmd with
   | "K" -> universe := SS.length (f 0); curated := cfg_of_string (f 0); "ok"
-  | "N" -> st := new0 !curated (nat_of_int (int_of_string (f 0))); Stdlib.Hashtbl.reset word_ids; "ok"
+  | "N" -> cst := (new0 !curated (nat_of_int (int_of_string (f 0))), []); Stdlib.Hashtbl.reset word_ids; "ok"
+  | "KD" ->
+      let cur = ref (ints (f 0)) in
+      let n = take cur in
+      descriptions := times n (fun () -> let k = n_of_int (take cur) in let c = n_of_int (take cur) in (k, [c])); "ok"
+  | "LD" ->
+      (match do_ystep YGetDescriptions with
+       | YDescriptions d -> SS.concat " " (SL.map (fun (k, t) -> string_of_int (int_of_n k) ^ ":" ^ cps t) d)
+       | _ -> "?")
+  | "SUM" ->
+      let b x = if x = "-" then None else Some (z_of_int (int_of_string x)) in
+      (match words (f 0) with
+       | [a; e] ->
+           (match do_ystep (YSummarize (b a, b e)) with
+            | YSummary s ->
+                let counts = SL.sort compare (SL.map (fun (k, c) -> (int_of_nat k, int_of_nat c)) s.lint_counts) in
+                let missp = SL.sort compare (SL.map (fun (w, c) -> (SL.map int_of_n w, int_of_nat c)) s.misspelled) in
+                SS.concat " | " [
+                  string_of_int (int_of_nat s.total_applied);
+                  SS.concat " " (SL.map (fun (k, c) -> string_of_int k ^ ":" ^ string_of_int c) counts);
+                  SS.concat " ; " (SL.map (fun (w, c) -> SS.concat " " (SL.map string_of_int w) ^ " :" ^ string_of_int c) missp);
+                  string_of_int (SL.length s.final_config) ]
+            | _ -> "?")
+       | _ -> "?")
   | "L" ->
       let lang = if int_of_string (f 0) = 0 then Plain else Markdown in
       let t = text_of_ints (ints (f 1)) in
@@ -268,6 +300,11 @@ let handle (l : SS.t) : SS.t =
       let t = text_of_ints (ints (f 0)) in
       let w = read_wlint (ref (ints (f 1))) in
       let s = read_sug (ref (ints (f 2))) in
+      cur_record := None;
+      (if f 3 <> "-" then
+         match drv_line (text_of_ints (ints (f 3))) with
+         | Some r -> cur_record := Some r
+         | None -> failwith "the model's reader (C19Record.de_record) rejects the record the linter wrote");
       (match do_step (CApply (t, w, s)) with
        | OText t' -> SS.trim ("T " ^ cps t')
        | OPanic _ -> "P"
@@ -303,8 +340,8 @@ let handle (l : SS.t) : SS.t =
       else unit_out (do_step (CSetConfig (Some (cfg_of_string (f 0)))))
   | "GC" -> (match do_step CGetConfig with OConfig c -> string_of_cfg c | _ -> "?")
   | "S" ->
-      (match do_step CGetStats with
-       | OStats rs -> SS.concat " " (SL.map string_of_int (SL.length rs :: SL.map (fun r -> kind_index r.sr_kind) rs))
+      (match do_xstep XGenerateStats with
+       | XFile f -> SS.trim ("F " ^ SS.map (fun c -> if c = '\n' then '\t' else c) (string_of_bytes f))
        | _ -> "?")
   | "D" -> (match do_step CGetDialect with ODialect d -> string_of_int (int_of_nat d) | _ -> "?")
   | "DC" -> handle_dc f
@@ -322,10 +359,7 @@ let handle (l : SS.t) : SS.t =
       (match do_xstep (XIsolateEnglish t) with XOut (OText r) -> SS.trim ("T " ^ cps r) | _ -> "?")
   | "DCFG" -> (match do_xstep XGetDefaultConfig with XOut (OConfig c) -> string_of_cfg c | _ -> "?")
   | "IS" ->
-      let file =
-        if SS.trim body = "!" then [n_of_int 200; n_of_int 200; n_of_int 10]
-        else SL.concat (SL.map (fun k -> [n_of_int k; n_of_int 10]) (ints body)) in
-      (match do_xstep (XImportStats file) with XOut o -> unit_out o | _ -> "?")
+      (match do_xstep (XImportStats (text_of_ints (ints body))) with XOut o -> unit_out o | _ -> "?")
   | "JL" -> utf8 (print_wlint (read_wlint (ref (ints (f 0)))))
   | "JS" -> (match ints (f 0) with [a; b] -> utf8 (print_span { sstart = nat_of_int a; send = nat_of_int b }) | _ -> "?")
   | "JG" -> utf8 (print_wsuggestion (read_sug (ref (ints (f 0)))))
